@@ -240,7 +240,7 @@ def run_check(prop, tier, seed, replay):
                     tag = m.group(2) if m and m.group(2) else None
                     if f.startswith('VIOL') and tag == prop:
                         violations.append((f[:400], h.get('trace'), False))
-                    elif f.startswith('MISMATCH') and prop in P.get('mismatch_props', [prop]) and P.get('mismatch_counts', False):
+                    elif f.startswith('MISMATCH') and (tag is None or tag == prop) and prop in P.get('mismatch_props', [prop]) and P.get('mismatch_counts', False):
                         violations.append((f[:400], h.get('trace'), True))
                     elif f.startswith('DRIVER-EOF'):
                         violations.append((f[:400], h.get('trace'), True))
